@@ -180,12 +180,22 @@ inherit() {
 	local location olocation
 	local ECLASS
 
-	# note that this ensures any later unsets/mangling, the ebuilds original
-	# setting is protected.
-	local IUSE REQUIRED_USE DEPEND RDEPEND PDEPEND BDEPEND IDEPEND
+	# Stash the caller's values (the ebuild's, or the outer eclass' for nested
+	# inherits) of the incremental metadata variables and restore them once the
+	# eclasses are sourced, so any unsets/mangling done by an eclass leaves the
+	# original settings protected. Shadowing them with same-named locals isn't
+	# enough: eclasses are sourced from nested function scopes, so an `unset` in
+	# an eclass drops such a local and exposes (and then alters) the caller's
+	# variable.
+	local -a __inherit_vars=( IUSE REQUIRED_USE DEPEND RDEPEND PDEPEND BDEPEND IDEPEND )
 	if ${PKGCORE_ACCUMULATE_PROPERTIES_RESTRICT}; then
-		local PROPERTIES RESTRICT
+		__inherit_vars+=( PROPERTIES RESTRICT )
 	fi
+	local -A __inherit_saved=()
+	local __inherit_var
+	for __inherit_var in "${__inherit_vars[@]}"; do
+		[[ -n ${!__inherit_var+set} ]] && __inherit_saved[${__inherit_var}]=${!__inherit_var}
+	done
 
 	# keep track of direct ebuild inherits
 	[[ ${INHERIT_DEPTH} -eq 1 ]] && INHERIT+=" $@"
@@ -199,10 +209,7 @@ inherit() {
 			fi
 		fi
 
-		unset -v IUSE REQUIRED_USE DEPEND RDEPEND PDEPEND BDEPEND IDEPEND
-		if ${PKGCORE_ACCUMULATE_PROPERTIES_RESTRICT}; then
-			unset -v PROPERTIES RESTRICT
-		fi
+		unset -v "${__inherit_vars[@]}"
 
 		__internal_inherit "$1" || die "${FUNCNAME}: failed sourcing $1"
 
@@ -226,6 +233,12 @@ inherit() {
 		INHERITED+=" ${ECLASS}"
 
 		shift
+	done
+
+	# restore the caller's settings, unset ones stay unset
+	unset -v "${__inherit_vars[@]}"
+	for __inherit_var in "${!__inherit_saved[@]}"; do
+		printf -v "${__inherit_var}" '%s' "${__inherit_saved[${__inherit_var}]}"
 	done
 }
 
